@@ -1,5 +1,6 @@
 // C17: objects live while referenced or busy and are finalised exactly once (run mostly under ASan)
 #include "h.h"
+#include <fcntl.h>
 
 #if defined(DSIM_ASAN)
 extern int __sanitizer_get_ownership(const volatile void *p);
@@ -220,21 +221,184 @@ static void scen_source(void) {
 	if (L.tq_kind == 0) dispatch_release(L.root);
 }
 
+
+/* ---- scenario 3: semaphore used by signallers and waiters that each hold a reference ---- */
+static void *sema_client(void *arg) {
+	int c = (int)(intptr_t)arg;
+	sim_event_wait(&L.go, LIVENESS_NS);
+	// even clients signal, odd clients wait: there are never more waits than signals, so the value is back at
+	// (or above) its initial value when the last reference goes
+	for (int i = 0; i < L.nitems_per; i++) {
+		if (c & 1) { if (dispatch_semaphore_wait(L.sema, DISPATCH_TIME_FOREVER)) h_viol("harness", "wait(FOREVER) returned non-zero"); }
+		else { L.items_submitted++; dispatch_semaphore_signal(L.sema); L.items_ended++; }
+		sim_point();
+	}
+	release_obj("client");
+	L.done++; h_progress();
+	return NULL;
+}
+static void scen_sema(void) {
+	L.tq_kind = 2;
+	L.sema = dispatch_semaphore_create(0); L.obj = L.sema;
+	dispatch_set_context(L.sema, &L.ctx1); dispatch_set_finalizer_f(L.sema, finalizer_obj);
+	sim_watch(L.sema, 96);
+	for (int i = 1; i < L.nclients; i++) dispatch_retain(L.sema);
+	sim_thread *th[MAXC];
+	for (int i = 0; i < L.nclients; i++) th[i] = sim_spawn(sema_client, (void *)(intptr_t)i, "c17-client");
+	sim_event_signal(&L.go);
+	h_end_fault_phase(th, L.nclients, 5 * NSEC);
+	if (h_wait_until(quiesced, NULL, LIVENESS_NS)) h_stuck("finalizer-missing", "the semaphore's finalizer did not run after every reference was dropped");
+	h_settle(50 * MSEC);
+	if (L.f_obj.count != 1) h_viol("finalizer-twice", "finalizer count %d", L.f_obj.count);
+	if (OWNED(L.obj)) h_viol("not-freed", "the semaphore's memory is still allocated after its finalizer ran");
+}
+
+/* ---- scenario 4: I/O channel released with a read in flight ---- */
+static struct { int fds[2]; dispatch_io_t ch; int read_done, read_invocations, cleanup_runs, handler_running; size_t got, sent; uint64_t last_handler_end, cleanup_stamp; int closed_by_client; } IO;
+static void *io_client(void *arg) {
+	int c = (int)(intptr_t)arg;
+	sim_event_wait(&L.go, LIVENESS_NS);
+	if (c == 0) {
+		L.items_submitted++;
+		dispatch_io_read(IO.ch, 0, SIZE_MAX, L.root, ^(bool done, dispatch_data_t d, int err) {
+			(void)err;
+			if (IO.handler_running++) h_viol("handler-reentered", "the read handler of the channel ran twice at once");
+			if (IO.read_done) h_viol("handler-after-done", "the read handler ran after it had reported done");
+			IO.read_invocations++;
+			if (d) IO.got += dispatch_data_get_size(d);
+			// the channel is used through the operation's own reference: the clients may all have let go
+			(void)dispatch_io_get_descriptor(IO.ch);
+			sim_point();
+			if (done) { IO.read_done = 1; L.items_ended++; L.last_item_end = h_stamp(); }
+			IO.last_handler_end = h_stamp();
+			IO.handler_running--;
+			h_progress();
+		});
+	} else if (c == 1) {
+		char buf[64]; memset(buf, 'x', sizeof buf);
+		for (int i = 0; i < L.nitems_per; i++) { ssize_t r = write(IO.fds[1], buf, 1 + (size_t)(i * 17 % 64)); if (r > 0) IO.sent += (size_t)r; sim_sleep_ns((uint64_t)(10 + 15 * i) * USEC); }
+		close(IO.fds[1]); IO.fds[1] = -1;   // end of file completes the read
+	} else if (c == 2 && L.susp) {
+		sim_sleep_ns((uint64_t)(RC.seed >> 20 & 63) * USEC);
+		IO.closed_by_client = 1;
+		dispatch_io_close(IO.ch, L.nested ? DISPATCH_IO_STOP : 0);
+	}
+	release_obj("client");
+	L.done++; h_progress();
+	return NULL;
+}
+static bool io_quiesced(void *c) { return quiesced(c) && IO.read_done; }
+static void scen_io(void) {
+	memset(&IO, 0, sizeof IO);
+	L.tq_kind = 2;
+	if (L.nclients < 2) L.nclients = 2;
+	if (pipe2(IO.fds, O_NONBLOCK)) h_viol("harness", "pipe");
+	L.root = dispatch_queue_create("c17-ioq", g_chance(1, 2) ? DISPATCH_QUEUE_CONCURRENT : NULL);
+	int rfd = IO.fds[0];
+	IO.ch = dispatch_io_create(DISPATCH_IO_STREAM, rfd, L.root, ^(int err) {
+		(void)err;
+		IO.cleanup_runs++; IO.cleanup_stamp = h_stamp();
+		// (when the cleanup handler runs relative to the operations' handlers is C14's clause, not judged here)
+		close(rfd);
+		h_progress();
+	});
+	if (!IO.ch) h_viol("harness", "dispatch_io_create failed");
+	L.obj = IO.ch;
+	dispatch_set_context(IO.ch, &L.ctx1); dispatch_set_finalizer_f(IO.ch, finalizer_obj);
+	dispatch_io_set_low_water(IO.ch, 1);
+	sim_watch(IO.ch, 160);
+	for (int i = 1; i < L.nclients; i++) dispatch_retain(IO.ch);
+	sim_thread *th[MAXC];
+	for (int i = 0; i < L.nclients; i++) th[i] = sim_spawn(io_client, (void *)(intptr_t)i, "c17-client");
+	sim_event_signal(&L.go);
+	h_end_fault_phase(th, L.nclients, 5 * NSEC);
+	if (h_wait_until(io_quiesced, NULL, LIVENESS_NS)) {
+		char b[200]; snprintf(b, sizeof b, "clients done %d/%d, read done %d after %d invocation(s), cleanup ran %d time(s), finalizer ran %d time(s)", L.done, L.nclients, IO.read_done, IO.read_invocations, IO.cleanup_runs, L.f_obj.count);
+		h_stuck("finalizer-missing", b);
+	}
+	h_settle(50 * MSEC);
+	if (L.f_obj.count != 1) h_viol("finalizer-twice", "finalizer count %d", L.f_obj.count);
+	{ uint64_t t0 = sim_now(); while (!IO.cleanup_runs && sim_now() - t0 < 5 * NSEC) sim_sleep_ns(10 * MSEC); }   // closes the descriptor; not judged here
+	if (L.f_obj.stamp < IO.last_handler_end) h_viol("finalizer-early", "the channel's finalizer ran before the last invocation of its read handler had finished");
+	if (!IO.closed_by_client && IO.got != IO.sent) h_viol("harness-io", "read %zu of %zu bytes", IO.got, IO.sent);
+	if (OWNED(L.obj)) h_viol("not-freed", "the channel's memory is still allocated after its finalizer ran");
+	if (IO.fds[1] >= 0) close(IO.fds[1]);
+	dispatch_release(L.root);
+}
+
+/* ---- scenario 5: data objects sharing one buffer, released from several threads ---- */
+static struct { dispatch_data_t d[MAXC]; unsigned char *buf; size_t n; int dtor_runs; uint64_t dtor_stamp; int total_refs; } DD;
+static void *data_client(void *arg) {
+	int c = (int)(intptr_t)arg;
+	sim_event_wait(&L.go, LIVENESS_NS);
+	dispatch_data_t d = DD.d[c];
+	for (int i = 0; i < L.nitems_per; i++) {
+		// reading through a derived object must stay memory-safe while the others are released (ASan watches the buffer)
+		__block unsigned sum = 0;
+		dispatch_data_apply(d, ^bool(dispatch_data_t r, size_t off, const void *p, size_t n) { (void)r; (void)off; for (size_t k = 0; k < n; k++) sum += ((const unsigned char *)p)[k]; return true; });
+		if (DD.dtor_runs) h_viol("destructor-early", "the buffer's destructor ran while an object derived from it was still referenced");
+		if (i == 0 && c == 1) { dispatch_data_t s = dispatch_data_create_subrange(d, 1, 3); sim_point(); dispatch_release(s); }
+		L.items_ended += (sum == 0xffffffffu);   // keeps the reads alive
+		sim_point();
+	}
+	L.releases_called++;
+	h_log("client %d releases its data object (%d of %d)", c, L.releases_called, L.nclients);
+	dispatch_release(d);
+	L.releases_returned++;
+	L.done++; h_progress();
+	return NULL;
+}
+static bool data_quiesced(void *c) { (void)c; return L.done >= L.nclients && DD.dtor_runs >= 1; }
+static void scen_data(void) {
+	memset(&DD, 0, sizeof DD);
+	L.tq_kind = 2;
+	DD.n = 64 + g_n(200); DD.buf = malloc(DD.n); memset(DD.buf, 7, DD.n);
+	L.root = dispatch_queue_create("c17-dq", NULL);
+	unsigned char *b = DD.buf;
+	dispatch_data_t base = dispatch_data_create(DD.buf, DD.n, L.root, ^{
+		DD.dtor_runs++; DD.dtor_stamp = h_stamp();
+		if (DD.dtor_runs > 1) h_viol("destructor-twice", "the buffer's destructor ran %d times", DD.dtor_runs);
+		if (L.releases_called < L.nclients) h_viol("destructor-early", "the buffer's destructor ran although only %d of %d objects built on it had been released", L.releases_called, L.nclients);
+		free(b);
+		h_progress();
+	});
+	// every client gets a different object built on the same buffer
+	for (int i = 0; i < L.nclients; i++) {
+		switch ((i + (int)g_n(4)) % 4) {
+		case 0: DD.d[i] = base; dispatch_retain(base); break;
+		case 1: DD.d[i] = dispatch_data_create_subrange(base, 3 + g_n(10), 10 + g_n(40)); break;
+		case 2: { dispatch_data_t s = dispatch_data_create_subrange(base, g_n(20), 5 + g_n(20)); DD.d[i] = dispatch_data_create_concat(s, base); dispatch_release(s); break; }
+		default: { dispatch_data_t s = dispatch_data_create_subrange(base, 10, 30), t = dispatch_data_create_subrange(s, 2, 9); DD.d[i] = dispatch_data_create_concat(t, s); dispatch_release(s); dispatch_release(t); break; }
+		}
+	}
+	dispatch_release(base);
+	L.f_obj.count = 1;   // no finalizer on data objects: the destructor is the event judged
+	sim_thread *th[MAXC];
+	for (int i = 0; i < L.nclients; i++) th[i] = sim_spawn(data_client, (void *)(intptr_t)i, "c17-client");
+	sim_event_signal(&L.go);
+	h_end_fault_phase(th, L.nclients, 5 * NSEC);
+	if (h_wait_until(data_quiesced, NULL, LIVENESS_NS)) h_stuck("destructor-missing", "the buffer's destructor did not run after every object built on it was released");
+	h_settle(20 * MSEC);
+	if (DD.dtor_runs != 1) h_viol("destructor-twice", "destructor count %d", DD.dtor_runs);
+	dispatch_release(L.root);
+}
+
 static void c17_run(void) {
 	memset(&L, 0, sizeof L);
-	L.scenario = (int)g_n(10) < 6 ? 0 : (int)g_n(2) + 1;
+	{ int r = (int)g_n(20); L.scenario = r < 9 ? 0 : r < 12 ? 1 : r < 15 ? 2 : r < 17 ? 3 : r < 19 ? 4 : 5; }
 	L.nclients = g_range(2, MAXC); L.nitems_per = g_range(0, 4);
 	L.susp = g_chance(1, 2); L.nested = g_chance(1, 2); L.last_from_item = g_chance(1, 3); L.set_ctx_late = g_chance(1, 4);
 	if (L.scenario != 0) { L.last_from_item = 0; L.set_ctx_late = 0; }
 	L.wait_for_others = g_chance(1, 2);
 	if (g_chance(2, 3)) { L.arm_rel = g_range(1, 70); L.arm_code = g_range(1, 4); }
 	if (L.scenario == 0 && g_chance(1, 3)) { L.last_from_item = 1; if (L.nitems_per < 2) L.nitems_per = 2; }
-	static const char *const sn[] = { "queue (context, finalizer, specific keys) targeting a queue its creator has already released", "group released while non-empty", "source released with events in flight" };
-	h_sample("%s; %d clients x %d items%s%s%s%s\n", sn[L.scenario], L.nclients, L.nitems_per, L.susp ? ", suspend/resume" : "", L.nested ? (L.scenario == 2 ? ", timer" : ", nested submission") : "",
+	static const char *const sn[] = { "queue (context, finalizer, specific keys) targeting a queue its creator has already released", "group released while non-empty", "source released with events in flight",
+		"semaphore shared by signallers and waiters", "I/O channel released with a read in flight", "data objects built on one buffer released from several threads" };
+	h_sample("%s; %d clients x %d items%s%s%s%s\n", sn[L.scenario], L.nclients, L.nitems_per, L.susp ? ", suspend/resume" : "", L.nested ? (L.scenario == 2 ? ", timer" : L.scenario == 4 ? ", close(STOP)" : ", nested submission") : "",
 		L.last_from_item ? ", one reference dropped from inside the last item" : "", L.set_ctx_late ? ", context replaced before the last release" : "");
 	h_announce();
-	if (L.scenario == 0) scen_queue(); else if (L.scenario == 1) scen_group(); else scen_source();
-	RES.counters[0] = L.items_ended; RES.counters[1] = L.releases_returned; RES.counters[2] = L.f_obj.count; RES.counters[3 + L.scenario] = 1;
+	switch (L.scenario) { case 0: scen_queue(); break; case 1: scen_group(); break; case 2: scen_source(); break; case 3: scen_sema(); break; case 4: scen_io(); break; default: scen_data(); }
+	RES.counters[0] = L.items_ended; RES.counters[1] = L.releases_returned; RES.counters[2] = L.f_obj.count; RES.counters[3 + L.scenario] = 1;   /* 3..8 */
 	RES.nontrivial = L.f_obj.count == 1 && (sim_st.watched_preempts > 0 || sim_st.fired[K_STALL] > 0);
 }
 static void c17_tune(sim_knobs *k, unsigned cfg, uint64_t *g) {
@@ -246,6 +410,6 @@ static void c17_tune(sim_knobs *k, unsigned cfg, uint64_t *g) {
 	else if (r < 60) k->strategy = STRAT_PCT;
 	k->alloc_den = 0;
 }
-static const char *const c17_names[] = { "items_or_handler_invocations", "references_dropped", "finalizers_run", "queue_runs", "group_runs", "source_runs", NULL };
+static const char *const c17_names[] = { "items_or_handler_invocations", "references_dropped", "finalizers_run", "queue_runs", "group_runs", "source_runs", "semaphore_runs", "io_channel_runs", "data_runs", NULL };
 const prop_def prop_C17 = { "C17", c17_tune, c17_run, c17_names,
 	"non-trivial: the object's finalizer ran and a pre-emption or injected stall was taken inside the object's atomics; distinct = distinct schedule signatures among those" };
